@@ -19,6 +19,7 @@ import (
 	"log/slog"
 	"math"
 	"runtime/debug"
+	"slices"
 	"sort"
 	"strings"
 	"testing"
@@ -46,7 +47,7 @@ func TestVerifKVCache(t *testing.T) {
 		Assumptions: []string{
 			"the sliding window of position p is [p-windowSize, p], as kvcache's own mask and tests define it",
 			"callers follow the runner's protocol: positions of a sequence are contiguous from 0, a sequence is resumed at an earlier position only after CanResume said yes, a failed Remove is followed by Remove(seq,0,MaxInt32), CopyPrefix has distinct source and destination",
-			"SetCausal(Except) (non-causal image tokens) and the encoder cache are not driven",
+			"rows for which the model calls SetCausal(Except) (gemma3 image tokens) may see later positions of their own sequence, everything else is checked for them too; the encoder cache is not driven",
 			"backend tensors keep exact values (no f16 rounding); graphs execute in build order",
 		},
 	})
@@ -89,6 +90,7 @@ type kvCfg struct {
 	nops      int
 	weights   [6]int // batch, copy, remove-suffix, remove-range, remove-all, reserve
 	overBatch bool
+	except    bool // some batches carry rows for which the model switches the causal mask off (gemma3 image tokens)
 	// windowed caches: the caller knows that CanResume and Remove do not account for
 	// entries evicted before a CopyPrefix / middle Remove (genuine defects, see
 	// findings/) and works around it, so that half of the runs reach what lies beyond
@@ -300,6 +302,7 @@ func (r *kvRun) drawCfg() {
 	}
 	c.overBatch = r.draw(6) == 5
 	c.avoidEvicted = c.kind != kvKindCausal && r.draw(2) == 1
+	c.except = r.draw(4) == 3
 }
 
 func (r *kvRun) build() {
@@ -465,10 +468,28 @@ type kvLayerOut struct {
 	layer   int
 	sub     kvSub
 	k, v, m *kvTensor
+	exc     []int
+}
+
+// drawExcept picks, for some batches, a run of rows of one sequence for which
+// the model will call SetCausal(Except): what gemma3 does for the tokens of an image.
+func (r *kvRun) drawExcept(rows []kvRow) []int {
+	if !r.cfg.except || r.draw(3) != 2 {
+		return nil
+	}
+	start := r.draw(len(rows))
+	n := 1 + r.draw(3)
+	var exc []int
+	for i := start; i < len(rows) && len(exc) < n; i++ {
+		if rows[i].seq == rows[start].seq {
+			exc = append(exc, i)
+		}
+	}
+	return exc
 }
 
 // doBatch plays one forward pass. It returns false when nothing was stored.
-func (r *kvRun) doBatch(rows []kvRow, why string) bool {
+func (r *kvRun) doBatch(rows []kvRow, why string, exc []int) bool {
 	c := &r.cfg
 	b := input.Batch{Positions: make([]int32, len(rows)), Sequences: make([]int, len(rows))}
 	for i, row := range rows {
@@ -476,6 +497,13 @@ func (r *kvRun) doBatch(rows []kvRow, why string) bool {
 		r.mix(1, row.seq, int(row.pos))
 	}
 	r.note("%s batch seqs=%v pos=%v", why, b.Sequences, b.Positions)
+	setNil := false
+	if exc != nil {
+		r.note("  (non-causal rows %v)", exc)
+		r.mix(7, exc[0], len(exc))
+	} else if c.except {
+		setNil = r.draw(4) == 3 // gemma3 calls SetCausal on every pass, with an empty list when there is no image
+	}
 	live := r.distinctLive()
 	cellsBefore := make([]int, len(r.subs))
 	for i, s := range r.subs {
@@ -613,13 +641,16 @@ func (r *kvRun) doBatch(rows []kvRow, why string) bool {
 				r.wrap.SetLayerType(c.layerType[layer])
 				sub = r.subs[c.layerType[layer]]
 			}
+			if exc != nil || setNil {
+				sub.c.SetCausal(ctx, CausalOptions{Except: exc})
+			}
 			r.cache.Put(ctx, kt, vt)
 			k, v, m = r.cache.Get(ctx)
 			ctx.Forward(k, v, m)
 		}) {
 			return false
 		}
-		outs = append(outs, kvLayerOut{layer, sub, k.(*kvTensor), v.(*kvTensor), m.(*kvTensor)})
+		outs = append(outs, kvLayerOut{layer, sub, k.(*kvTensor), v.(*kvTensor), m.(*kvTensor), exc})
 	}
 	if r.guard("Compute", func() { ctx.Compute() }) {
 		return false
@@ -631,6 +662,9 @@ func (r *kvRun) doBatch(rows []kvRow, why string) bool {
 	}
 	if c.cc.MaskDType == ml.DTypeF16 {
 		r.probe("mask_f16")
+	}
+	if exc != nil {
+		r.probe("except_rows")
 	}
 	for _, o := range outs {
 		if r.guard("oracle-read", func() { r.checkLayer(rows, o) }) || r.stopped {
@@ -719,6 +753,7 @@ func (r *kvRun) checkLayer(rows []kvRow, o kvLayerOut) {
 			}
 		}
 		seen := map[int]bool{}
+		seenFuture := map[int]bool{}
 		var vis []string
 		fail := func(diff, f string, a ...any) {
 			op := r.lastOp[row.seq]
@@ -787,6 +822,12 @@ func (r *kvRun) checkLayer(rows []kvRow, o kvLayerOut) {
 			default:
 				if me, has := mine[tok]; has {
 					switch {
+					case me.pos == int32(pos) && me.pos > row.pos && me.pos >= lo && !seenFuture[tok] && slices.Contains(o.exc, i):
+						// the model asked for a non-causal mask for this row: later
+						// positions of its own sequence are what it wants to see
+						seenFuture[tok] = true
+						r.probe("except_future_visible")
+						continue
 					case me.pos != int32(pos):
 						fail("wrong-position", "token %d is visible with position %d, the reference position is %d", tok, int32(pos), me.pos)
 					case me.pos > row.pos:
@@ -1278,7 +1319,8 @@ func runKV(t *testing.T, tape *verifsim.Tape, prop, tier string, keepLog bool) (
 		}
 		switch op {
 		case 0:
-			r.doBatch(r.drawBatch(), "")
+			rows := r.drawBatch()
+			r.doBatch(rows, "", r.drawExcept(rows))
 		case 1:
 			r.opCopy()
 		case 2:
@@ -1298,7 +1340,7 @@ func runKV(t *testing.T, tape *verifsim.Tape, prop, tier string, keepLog bool) (
 		}
 		row := kvRow{seq: s, pos: int32(len(r.ref[s])), tok: r.nextTok}
 		r.nextTok++
-		if !r.doBatch([]kvRow{row}, "sweep") {
+		if !r.doBatch([]kvRow{row}, "sweep", nil) {
 			r.info("sweep_skipped_full")
 		}
 		if !r.stopped {
